@@ -281,6 +281,37 @@ def ee7%(u)s():
 print(ee3%(u)s(), ee4%(u)s(7, 3), ee7%(u)s(), len(ee6%(u)s))""" % {"u": u, "uni": uni}
 
 
+@template(tags=("ext_jumps",))
+def t_ext_jumps(rng, lvl, u):
+    """Every aggregate-building construct with an operand that contains a jump (conditional expression, `or`, `and`, chained
+    comparison) in first, middle and last position: the 'extended' formatters walk back over operand instructions and
+    must cope with jump targets in between."""
+    operands = ["(q if c else r)", "(q or r)", "(q and r)", "(a < q < r)", "(not q)"]
+    constructs = [
+        ("dictc", "{'a': %s, 'b': %s, 'c': %s}"), ("dictv", "{p: %s, q: %s, r: %s}"), ("tup", "(%s, %s, %s)"), ("lst", "[%s, %s, %s]"),
+        ("set", "set([%s, %s, %s])"), ("call", "f(%s, %s, %s)"), ("callkw", "f(%s, k=%s, j=%s)"), ("meth", "p.m(%s, %s, %s)"),
+        ("sub", "p[%s][%s][%s]"), ("slice", "p[%s:%s:%s]"), ("binop", "%s + %s * %s"), ("cmp", "%s < %s != %s"),
+        ("fmt", "'%%s %%s %%s' %% (%s, %s, %s)"), ("attr", "(%s).x.y(%s)(%s)"),
+    ]
+    if lvl >= (3, 6):
+        constructs += [("fstr", "f'{%s} {%s!r} {%s:>5}'"), ("star", "f(*%s, **%s, z=%s)"), ("setd", "{%s, %s, %s}"),
+                       ("dictu", "{'a': %s, **%s, 'z': %s}")]
+    out = []
+    n = 0
+    for cname, tmpl in constructs:
+        for pos in range(3):
+            op = operands[(n + pos) % len(operands)]
+            args = ["p", "q", "r"]
+            args[pos] = op
+            out.append("def ej%s_%s%d(p, q, r, c, a, f):\n    return %s" % (u, cname, pos, tmpl % tuple(args)))
+            n += 1
+    # statements whose operands jump
+    out.append("def ej%s_st(p, q, r, c, a, f):\n    p[q if c else r] = (q or r)\n    p.x = q if c else r\n    x, y = (q or r), (q and r)\n"
+               "    del p[q or r]\n    assert (q or r), (q if c else r)\n    return x if y else p" % u)
+    out.append("print(ej%s_tup0(1, 2, 3, 0, 1, None), ej%s_dictc2(1, 2, 3, 1, 0, None)['c'])" % (u, u))
+    return "\n".join(out)
+
+
 @template(tags=("closure", "cell_param"))
 def t_closure(rng, lvl, u):
     depth = rng.randrange(1, 5)
@@ -912,7 +943,7 @@ print zops%(u)s(5, 3)[:3], zl%(u)s(1)
 """ % {"u": u}
 
 
-NO_WRAP = {"t_opcode_zoo", "t_opcode_zoo2", "t_py2_raise", "t_ext_edges", "t_shared_frozenset", "t_shared_big_tuple", "t_many_names", "t_misc", "t_import", "t_pep695", "t_line_gaps"}
+NO_WRAP = {"t_ext_jumps", "t_opcode_zoo", "t_opcode_zoo2", "t_py2_raise", "t_ext_edges", "t_shared_frozenset", "t_shared_big_tuple", "t_many_names", "t_misc", "t_import", "t_pep695", "t_line_gaps"}
 NO_CLASS_WRAP = NO_WRAP | {"t_long_loop", "t_class3", "t_closure", "t_shared", "t_class2", "t_async", "t_control", "t_deep",
                            "t_backward_lines", "t_long_columns", "t_py2_long", "t_ints", "t_floats", "t_complex",
                            "t_strings", "t_bytes", "t_comp", "t_misc3", "t_try_nest", "t_match", "t_except_star",
